@@ -18,6 +18,10 @@ _same_generator()
 # open in known_findings.json; then they print KNOWN-FINDING and the check exits 0 again).
 FINDINGS = os.environ.get("C06_FINDINGS", "") not in ("", "0")
 
+# Layout / parser jobs take 0.1..3 s on the unchanged tree. A change that sends the matcher into following lines can
+# make single jobs explore for many minutes; those jobs time out (inconclusive) while their siblings report the violation.
+JOB_TIMEOUT_S = int(os.environ.get("C06_JOB_TIMEOUT_S", "60"))
+
 STYLES = {0: "plain", 1: "squote", 2: "dquote", 3: "mplain", 4: "lit", 5: "litstrip", 6: "litkeep", 7: "fold", 8: "foldstrip"}
 
 
@@ -38,7 +42,7 @@ def readback_jobs(tier):
                     for i, n in enumerate(lens):
                         p["len%d" % i] = n
                     out.append({"name": "rb-%s-v%d-l%d-c%d-m%d" % ("x".join(map(str, lens)), vlen, line, col, mincol),
-                                "func": "VerifHarness_ReadBack", "params": p, "unwind": 2000,
+                                "func": "VerifHarness_ReadBack", "params": p, "unwind": 2000, "max_failures": 4,
                                 "reach": ["end"] if vlen == 0 or line == nl else ["end", "matched"]})
 
     if tier == "quick":
@@ -68,7 +72,7 @@ def readrange_jobs(tier):
         p = {"nr": len(ws)}
         for i, w in enumerate(ws):
             p["w%d" % i] = w
-        out.append({"name": "rr-" + "-".join(map(str, ws)), "func": "VerifHarness_ReadRange", "params": p, "unwind": 400, "reach": ["end"]})
+        out.append({"name": "rr-" + "-".join(map(str, ws)), "func": "VerifHarness_ReadRange", "params": p, "unwind": 400, "reach": ["end"], "max_failures": 4, "timeout_s": JOB_TIMEOUT_S})
     return out
 
 
@@ -117,7 +121,7 @@ def pname(prefix, p):
 def diags_jobs(tier):
     out = readrange_jobs(tier) + readback_jobs(tier)
     for p in layouts(tier) + (finding_layouts() if FINDINGS else []):
-        out.append({"name": pname("lay", p), "func": "VerifHarness_Layout", "params": p, "unwind": 400, "reach": ["end"]})
+        out.append({"name": pname("lay", p), "func": "VerifHarness_Layout", "params": p, "unwind": 400, "reach": ["end"], "max_failures": 4, "timeout_s": JOB_TIMEOUT_S})
     return out
 
 
@@ -130,7 +134,7 @@ def parser_jobs(tier):
             one = (tier == "quick" and (lab or p["cmt"])) or p["findings"]
             for (offl, offc) in ([(0, 0)] if one else [(0, 0), (2, 3)]):
                 q = dict(p, lab=lab, offl=offl, offc=offc)
-                out.append({"name": pname("rule", q), "func": "VerifHarness_ParseRule", "params": q, "unwind": 400, "reach": ["end"]})
+                out.append({"name": pname("rule", q), "func": "VerifHarness_ParseRule", "params": q, "unwind": 400, "reach": ["end"], "max_failures": 4, "timeout_s": JOB_TIMEOUT_S})
     return out
 
 
